@@ -205,6 +205,19 @@ class _Global(ast.NodeTransformer):
                 gen = ast.GeneratorExp(elt=elt, generators=[ast.comprehension(target=lp.target, iter=lp.iter, ifs=ifs_, is_async=0)])
                 ret = ast.copy_location(ast.Return(value=ast.Call(func=ast.Name(id=fn, ctx=ast.Load()), args=[gen], keywords=[])), lp)
                 return res[:i] + [ret] + res[i + 2:]
+        # G17: consecutive `if A: X` ; `if B: X` with the same exiting body X (no else) -> `if A or B: X`
+        k = 0
+        while k + 1 < len(res):
+            a_, b_ = res[k], res[k + 1]
+            if isinstance(a_, ast.If) and isinstance(b_, ast.If) and not a_.orelse and not b_.orelse and _exits(a_.body) \
+                    and [ast.dump(x) for x in a_.body] == [ast.dump(x) for x in b_.body]:
+                vals = []
+                for t in (a_.test, b_.test):
+                    vals.extend(t.values if isinstance(t, ast.BoolOp) and isinstance(t.op, ast.Or) else [t])
+                a_.test = ast.BoolOp(op=ast.Or(), values=vals)
+                del res[k + 1]
+                continue
+            k += 1
         # G18: `if c: return <complex>` ; `return <constant | NotImplemented>` -> guard-clause form `if not c: return <constant>` ; `return <complex>`
         if len(res) >= 2 and isinstance(res[-1], ast.Return) and isinstance(res[-2], ast.If) and not res[-2].orelse and len(res[-2].body) == 1 \
                 and isinstance(res[-2].body[0], ast.Return):
